@@ -544,7 +544,17 @@ def answers_digest(ix, driver, salt):
 
 
 def _life(ix, driver, i, op, res):
-    q = {"ans": answers_digest(ix, driver, i)}
+    # the digest taken after a reopen is compared with the one taken before it: both must ask the same
+    # questions, so a reopen request does not extend the probe pool (the anchors it names would)
+    if op is not None and op.get("op") == "Reopen" and hasattr(ix, "life_pool"):
+        saved, ix.pool = ix.pool, set(ix.life_pool)
+        try:
+            q = {"ans": answers_digest(ix, driver, i)}
+        finally:
+            ix.pool = saved
+    else:
+        q = {"ans": answers_digest(ix, driver, i)}
+        ix.life_pool = set(getattr(ix, "pool", set()))
     if op is not None and op.get("op") in ("Clear", "Recreate"):
         fresh = impl.Index(ix.backend, op["def"], op["rules"])
         try:
@@ -552,8 +562,12 @@ def _life(ix, driver, i, op, res):
             b = impl.observe(ix)
             fresh.pool = set(getattr(ix, "pool", set()))
             # the rules held in RAM are part of "indistinguishable": the prefix a page WOULD get
-            probes = sorted(set(list(driver.u.lrus[:8]) + [a_ + x + y for a_ in list(getattr(driver, "after_clear", None) or [])[:3]
-                                                           for x in driver.u.paths[:2] for y in driver.u.paths[:2]]))
+            if driver is not None:
+                probes = sorted(set(list(driver.u.lrus[:8]) + [a_ + x + y
+                                                               for a_ in list(getattr(driver, "after_clear", None) or [])[:3]
+                                                               for x in driver.u.paths[:2] for y in driver.u.paths[:2]]))
+            else:
+                probes = sorted(pool_of(ix, None))[:12]
             pot = lambda z: [guarded(lambda l=l: z.t.get_potential_prefix(l)) for l in probes]
             q["fresh"] = {"rawsame": fresh.raw() == ix.raw(), "obssame": a == b,
                           "anssame": answers_digest(fresh, driver, i) == q["ans"],
